@@ -205,6 +205,7 @@ func (sh shape) structValue(streamNS string) structVal {
 }
 
 var forms = []string{
+	"Send(reader-with-a-second-element)",
 	"Send", "SendElement", "TokenWriter",
 	"Encode(struct)", "Encode(TokenReader)", "Encode(Marshaler)", "Encode(WriterTo)",
 	"EncodeElement(struct)", "EncodeElement(struct+attrs)", "EncodeElement(Marshaler)", "EncodeElement(WriterTo)",
@@ -231,6 +232,12 @@ func doTransmit(s *xmpp.Session, form string, sh shape, streamNS string) (err er
 	switch form {
 	case "Send":
 		return s.Send(ctx, &xu.SliceReader{Toks: toks}), true
+	case "Send(reader-with-a-second-element)":
+		// Send transmits the first element of the reader: what follows it in the
+		// reader (eg. the next stanza of a queue that is relayed one Send at a
+		// time) is not part of this call
+		second := xml.StartElement{Name: xml.Name{Local: "presence"}, Attr: []xml.Attr{{Name: xml.Name{Local: "id"}, Value: "second-element"}}}
+		return s.Send(ctx, &xu.SliceReader{Toks: append(append([]xml.Token{}, toks...), second, second.End())}), true
 	case "SendElement":
 		return s.SendElement(ctx, inner(), start), true
 	case "TokenWriter":
@@ -343,7 +350,8 @@ func doTransmit(s *xmpp.Session, form string, sh shape, streamNS string) (err er
 }
 
 func shapesBody(c *nd.Ctx) nd.Result {
-	s2s := c.Choose(2, "s2s") == 1
+	role := c.Choose(3, "stream") // 0 client-to-server, 1 server-to-server initiated by us, 2 server-to-server received
+	s2s := role != 0
 	form := forms[c.Choose(len(forms), "form")]
 	sh := shape{name: names[c.Choose(len(names), "name")], ns: spaces[c.Choose(len(spaces), "namespace")]}
 	sh.id = c.Choose(3, "id")
@@ -362,11 +370,15 @@ func shapesBody(c *nd.Ctx) nd.Result {
 	if s2s {
 		streamNS = stanza.NSServer
 	}
-	s, rw, err := sess.New(streamNS, "")
+	mk := sess.New
+	if role == 2 {
+		mk = sess.NewReceived
+	}
+	s, rw, err := mk(streamNS, "")
 	if err != nil {
 		panic("c05: setup: " + err.Error())
 	}
-	desc := fmt.Sprintf("%s name=%s ns=%q id=%d from=%d xmlns-attr=%v nested=%v payload=%d s2s=%v", form, sh.name, sh.ns, sh.id, sh.from, sh.xmlnsAttr, sh.nested, sh.payload, s2s)
+	desc := fmt.Sprintf("%s name=%s ns=%q id=%d from=%d xmlns-attr=%v nested=%v payload=%d s2s=%v received=%v", form, sh.name, sh.ns, sh.id, sh.from, sh.xmlnsAttr, sh.nested, sh.payload, s2s, role == 2)
 	var terr error
 	var applicable bool
 	before := rw.Out.Len()
@@ -404,7 +416,7 @@ func shapesBody(c *nd.Ctx) nd.Result {
 		return res
 	}
 	idByCaller := strings.Contains(form, "IQ") || strings.Contains(form, "Message") || strings.Contains(form, "Presence")
-	want := sh.expected(streamNS, s2s, sess.Origin.String(), idByCaller)
+	want := sh.expected(streamNS, s2s, s.LocalAddr().String(), idByCaller)
 	got := els[0]
 	// generated ids match any non-empty value
 	if strings.Contains(want, `{}id="*"`) {
@@ -442,7 +454,7 @@ func init() {
 	drv.Register(&drv.Prop{
 		ID:    "C05",
 		Level: "model_checking",
-		Rule: "shapes: 23 transmit entry points / value forms (Send, SendElement, TokenWriter, Encode and EncodeElement with struct / TokenReader / Marshaler / WriterTo values, the Send/Encode IQ, message and presence families with reply types) x element name {message, iq, presence, foo} x namespace {none, the stream's, foreign} x id {absent, empty, set} x from {absent, empty, set} x explicit xmlns attribute x nested stanza-named child x payload {none, small, 5000 bytes} x c2s/s2s: after the call returns nil the wire must hold exactly one more complete top-level element tree-equal to a reference (supplied start outermost, id completed, namespace defaulted, from added on s2s, nothing else altered). " +
+		Rule: "shapes: 24 transmit entry points / value forms (Send, SendElement, TokenWriter, Encode and EncodeElement with struct / TokenReader / Marshaler / WriterTo values, the Send/Encode IQ, message and presence families with reply types) x element name {message, iq, presence, foo} x namespace {none, the stream's, foreign} x id {absent, empty, set} x from {absent, empty, set} x explicit xmlns attribute x nested stanza-named child x payload {none, small, 5000 bytes} x c2s/s2s: after the call returns nil the wire must hold exactly one more complete top-level element tree-equal to a reference (supplied start outermost, id completed, namespace defaulted, from added on s2s, nothing else altered). " +
 			"schedules (part 'concurrent'): 2-3 concurrent senders through different entry points plus a handler reply on the controlled scheduler, every interleaving up to the preemption bound: the peer's byte stream must re-parse into exactly the expected elements, none interleaved. Non-trivial = every distinct case.",
 		Assumptions: []string{"elements in a foreign namespace are only required to arrive whole and unaltered", "generated ids match any non-empty value", "comparison is on parsed trees (namespace declarations are not attributes)"},
 		Parts: func(tier string) []drv.Part {
